@@ -14,7 +14,9 @@ vars == <<args, opts, st>>
 Cs(s) == s   \* argument shapes are written as character sequences
 Args12 == { <<"a","=","1">>, <<"a","=","x">>, <<"a",".","b","=","2">>, <<"a",".","0","=","1">>, <<"a","=","1",",","2">>,
             <<"a","=","[","3","]">>, <<"a","=","{","b",":","1","}">>, <<"a","=","{","b",".","c",":","1","}">>,
-            <<"b">>, <<"a","=">>, <<"a","=","[">>, <<"a","=","\"","x">>, <<"a","=","n","u","l","l">>, <<"c",".","1","=","t","r","u","e">> }
+            <<"b">>, <<"a","=">>, <<"a","=","[">>, <<"a","=","\"","x">>, <<"a","=","n","u","l","l">>, <<"c",".","1","=","t","r","u","e">>,
+            \* keys that START with an index address the top-level LIST of the configuration
+            <<"0",".","a","=","1">>, <<"1","=","y">> }
 ArgsQuick == Args12 \ {<<"a","=","\"","x">>, <<"a","=","n","u","l","l">>}
 O(sep, pol, ab) == [sep |-> sep, pol |-> pol, autoBool |-> ab]
 OptsAll == {O(FALSE, "default", TRUE), O(TRUE, "default", TRUE), O(TRUE, "append", TRUE), O(TRUE, "prepend", TRUE),
